@@ -17,7 +17,8 @@ from .common import Check, REPO, lean_driver, quiet_naunet, silenced, tier_and_s
 
 quiet_naunet()
 MODULES = ["NaunetProps.C12"]
-THEOREMS = ["Naunet.C12.toC_preserves", "Naunet.C12.args_preserves", "Naunet.C12.eval_numExpr", "Naunet.C12.F7_witness"]
+THEOREMS = ["Naunet.C12.toC_preserves", "Naunet.C12.args_preserves", "Naunet.C12.eval_numExpr", "Naunet.C12.F7_witness",
+            "Naunet.C12.nint_rint_differ_at_half", "Naunet.C12.nint_rint_agree_examples"]
 RULE = ("expressions derived from the translator's own grammar (numbers with d/e exponents and signs, variables, intrinsic calls, "
         "parentheses, + - * /, ** incl. chains and signed literal bases, n(idx_X) references) up to depth 4, plus every rate of the "
         "bundled KROME networks; each translated text is evaluated under C semantics and compared with the reference Fortran value "
@@ -438,6 +439,24 @@ def run(argv):
             pend.append((case, ctext))
         except Exception as e:
             chk.corr_break("tree-shape", case, None, f"{type(e).__name__}: {e}")
+    if getattr(chk, "lean_ok", False):
+        # the two rounding functions of the model (`Fortran.fnint`, `Fortran.crint`) against the reference reader's NINT and the C
+        # evaluator's rint, on halves, quarters and tenths
+        vals = [[k_, 2] for k_ in range(-9, 10)] + [[k_, 4] for k_ in range(-9, 10)] + [[k_, 10] for k_ in range(-26, 27, 3)]
+        try:
+            ans_ = lean_driver([{"cmd": "nint", "vals": vals}])[0]
+            for (n_, d_), (mf, mc) in zip(vals, ans_):
+                x_ = n_ / d_
+                rf = feval(("call", "nint", [("num", "0.0")]), {}) if False else (math.floor(abs(x_) + 0.5) * (1 if x_ >= 0 else -1))
+                rc = ceval.ev(cparse.parse_expr(f"rint({abs(x_)!r})"), {}) * (1 if x_ >= 0 else -1)
+                if mf != rf or mc != rc:
+                    chk.corr_break("rounding-intrinsics", {"x": x_}, {"nint": mf, "rint": mc}, {"nint": rf, "rint": rc})
+                    break
+            else:
+                chk.traces += 1
+                chk.hist["rounding-intrinsics-compared"] += len(vals)
+        except Exception as e:
+            chk.corr_break("driver", None, None, str(e)[:300])
     if getattr(chk, "lean_ok", False) and reqs:
         try:
             answers = lean_driver(reqs)
